@@ -37,7 +37,9 @@ type colSpec struct {
 
 var textAlts = []string{"with space", `comma, and "quote"`, "ünï-çødé 日本", "line1\nline2", "#7 starts with a hash", "", "para 1\n\npara 2\n \npara 3", "A &amp; B &lt;i&gt; &#39;q&#39; ?a=1&region=x&copy=2", "Cafe\u0301 u\u0308 \u212b \u2126 \ufb01 (not NFC)", "  (two leading blanks and no reason to quote the cell)"}
 var timeAlts = []string{"00:00:00", "4:05:06", "25:10:05", "47:59:59"}
-var decimalAlts = []string{"0", "1.5", "-0.1281", "-73.25", " 2.5 ", "1e-3", "40.295390375177476", "-106.85272440696379", "1592.7733726954207", "11216.913859208591"}
+
+// 16.842632, 3.543709: six decimals whose nearest float64 is missed when the integer and the fraction are converted separately
+var decimalAlts = []string{"0", "1.5", "-0.1281", "16.842632", "3.543709", "-73.25", " 2.5 ", "1e-3", "40.295390375177476", "-106.85272440696379", "1592.7733726954207", "11216.913859208591"}
 var intAlts = []string{"0", "-5", "2147483647"}
 var dateAlts = []string{"20240310", "20231105", "19700101", "20240229", "20241231", "20241006", "20240407", "99991231", "00010101", "20240908"}
 var zoneAlts = []string{"Europe/London", "Asia/Kolkata", "UTC", "Mars/Phobos", "Australia/Sydney", "Australia/Lord_Howe", "Japan", "EST5EDT", "America/Santiago", "America/New_York"}
